@@ -302,9 +302,13 @@ def writer_table(model):
 def tables(model):
     """W, R_esc, R_bare from the source constants."""
     base = model.cls(CLS, "__Class")
+    W = None
     if "_to_escape" in base.attrs:
-        W = set(ast.literal_eval(base.attrs["_to_escape"]))
-    else:
+        try:
+            W = set(ast.literal_eval(base.attrs["_to_escape"]))
+        except (ValueError, SyntaxError):
+            W = None                 # the attribute is an alias of a constant defined elsewhere (`_to_escape = _cs.TO_ESCAPE`)
+    if W is None:
         W = writer_table(model)      # the table lives elsewhere / under another name: observe what the writer escapes
     rp = reader_range_regex(model)
     tree = parse_regex(rp, 0)[0]
